@@ -136,8 +136,13 @@ def W.newAccount (w : W cr) (label : String) (scheme pw sk addr salt : Nat) : Er
   else
     w.addAccountData ⟨addr, label, false, salt, cr.enc sk pw salt w.prm, 0, scheme, sk, pw, w.prm⟩
 
-/-- `ImportAccount` of a record that was encrypted from `(sk, pw)` under parameters `prm` -/
-def W.importAccount (w : W cr) (label : String) (alg scheme pw sk addr salt prm : Nat) : Err × W cr :=
+/-- `ImportAccount` of a record that was encrypted from `(sk, pw)` under parameters `prm`. Field by field as in the code:
+Label, PubKey, SigSch, Key, Alg, Address, EncAlg, Hash, Salt, Param are taken from the metadata; `metaDefault` (the metadata's
+`IsDefault`, e.g. of an account exported from a wallet where it was the default) is NOT copied — the fresh `AccountData` has
+`IsDefault = false` and only `addAccountData`'s own rule (first account of the wallet) can set it. The assigned field set is
+regenerated from the source by factgen (`Gen/WalletImport.lean`, theorem `C38_import_fields`). -/
+def W.importAccount (w : W cr) (label : String) (alg scheme pw sk addr salt prm : Nat) (metaDefault : Bool) : Err × W cr :=
+  let _ := metaDefault
   let label := if label ≠ "" ∧ (lk w.byLabel label).isSome then label ++ "_1" else label
   w.addAccountData ⟨addr, label, false, salt, cr.enc sk pw salt prm, alg, scheme, sk, pw, prm⟩
 
@@ -252,7 +257,7 @@ def W.changeScheme (w : W cr) (addr scheme : Nat) : Err × W cr :=
 
 inductive Op
   | new (label : String) (scheme pw sk addr salt : Nat)
-  | imp (label : String) (alg scheme pw sk addr salt prm : Nat)
+  | imp (label : String) (alg scheme pw sk addr salt prm : Nat) (metaDefault : Bool)
   | del (addr pw : Nat)
   | setDefault (addr : Nat)
   | setLabel (addr : Nat) (label : String)
@@ -263,7 +268,7 @@ deriving Repr
 
 def W.step (w : W cr) : Op → Err × W cr
   | .new l s p sk a sa => w.newAccount l s p sk a sa
-  | .imp l al s p sk a sa m => w.importAccount l al s p sk a sa m
+  | .imp l al s p sk a sa m d => w.importAccount l al s p sk a sa m d
   | .del a p => w.deleteAccount a p
   | .setDefault a => w.setDefault a
   | .setLabel a l => w.setLabel a l
